@@ -1011,6 +1011,10 @@ class Gen:
         while len(self.w.levels) > 1 and rng.random() < 0.7:
             self.emit('pop')
             self.queries(full=rng.random() < 0.5)
+            if len(self.w.levels) > 1 and rng.random() < 0.6:
+                self.newoid()                  # the storage popped to still knows what it had issued
+                if rng.random() < 0.5:
+                    self.issue_store_abort_reissue()
             if rng.random() < 0.5:
                 self.txn()
                 self.queries(full=False)
@@ -1308,7 +1312,7 @@ def main(argv=None):
     ck.extra['modules'] = ['Props.C16', 'Drivers.Demo']
     ck.run_gate(ck.extra['modules'], ['Props.C16'])
     install_fake()
-    ncases = 100 if not ck.thorough else 1500
+    ncases = 100 if not ck.thorough else 3000
     cases = []
     corpus_dir = os.path.join(os.path.dirname(os.path.dirname(os.path.abspath(__file__))), 'corpus', 'C16')
     probes = True
@@ -1371,7 +1375,7 @@ def main(argv=None):
         if (rep.get('case') or {}).get('blob_seed') is not None:
             blob_seeds = [rep['case']['blob_seed']]
     else:
-        blob_seeds = [ck.rng.randrange(10 ** 12) for _ in range(30 if not ck.thorough else 400)]
+        blob_seeds = [ck.rng.randrange(10 ** 12) for _ in range(30 if not ck.thorough else 600)]
     import random as _random
     for bs in blob_seeds:
         bad, blog = run_blob_case(_random.Random(bs), ck.tmp)
